@@ -201,6 +201,13 @@ pub(crate) struct TimerWheel {
     counter: u32,
 }
 
+#[cfg(calloop_verif)]
+impl TimerWheel {
+    pub(crate) fn verif_len(&self) -> usize {
+        self.heap.len()
+    }
+}
+
 impl TimerWheel {
     pub(crate) fn new() -> TimerWheel {
         TimerWheel {
